@@ -76,6 +76,7 @@ func (s *verifSink) Sync() error {
 	}
 	s.synced = len(s.writes)
 	ghostLog("sink.sync")
+	verifInterleaveHook()
 	return nil
 }
 
